@@ -237,10 +237,15 @@ func (q *TransmitLimitedQueue) deleteItem(cur *limitedBroadcast) {
 	if cur.name != "" {
 		delete(q.tm, cur.name)
 	}
+}
 
-	if q.tq.Len() == 0 {
-		// At idle there's no reason to let the id generator keep going
-		// indefinitely.
+// resetIDGenIfIdle restarts the id generator once the queue is empty. At idle
+// there's no reason to let the id generator keep going indefinitely. This must
+// only be called when no item is held outside the tree (superseded but not yet
+// replaced, or taken out for re-insertion), otherwise a later broadcast could
+// be stamped with an id that is still in use. You must already hold the mutex.
+func (q *TransmitLimitedQueue) resetIDGenIfIdle() {
+	if q.lenLocked() == 0 {
 		q.idGen = 0
 	}
 }
@@ -357,6 +362,7 @@ func (q *TransmitLimitedQueue) GetBroadcasts(overhead, limit int) [][]byte {
 	for _, cur := range reinsert {
 		q.addItem(cur)
 	}
+	q.resetIDGenIfIdle()
 
 	return toSend
 }
@@ -410,4 +416,5 @@ func (q *TransmitLimitedQueue) Prune(maxRetain int) {
 		cur.b.Finished()
 		q.deleteItem(cur)
 	}
+	q.resetIDGenIfIdle()
 }
